@@ -42,11 +42,51 @@ NEEDS = {
  "C19-B": ">= 2 files with an unchanged file iterated after a changed one, entire_reload in {no, yes}",
  "C20-A": "a nested row dropped by rule matching (ignore rule below the top level), then any later use of the same tree object",
  "C20-B": "two devices of one vendor but different hardware families served by one process, touching a model-dependent rule",
+ "C01-C": "an %ordered block that moves and in which a child line is modified (REMOVED + ADDED under one key): the whole key is deleted from the children pre",
+ "C01-D": "a rule carrying both %ordered (or %rewrite) and an explicit %logic=...; rows of that rule reordered",
+ "C02-C": "a generator yielding the negation of a row covered only by cant_delete rules, with the combined ACL applied without the exclusiveness check",
+ "C02-D": "a filter ACL in use and a row protected explicitly by %cant_delete",
+ "C03-C": "an %ordered rule whose rows are blocks (or a %rewrite block at depth >= 2) where the block row becomes MOVED",
+ "C03-D": "a %rewrite block whose only change lies below an unchanged first-level row (statement inside an if of a route-policy)",
+ "C04-C": "RouterOS: two adjacent nested sections whose child trees compare equal (one groupby group)",
+ "C04-D": "IOS-XR: a row that begins with a terminator word without ending in one (end-policy-map)",
+ "C05-C": "a `#` line at column 0 followed by a section whose first content line is indented",
+ "C05-D": "a block header repeated later in the text (second occurrence merges into the first): the per-depth node cache is stale",
+ "C06-C": "two rules with equal (prio, specificity) where an earlier rule matches in reverse and a later one directly",
+ "C06-D": "a row matched by exactly one non-global rule that has no children rules, under an ACL with %global rules",
+ "C07-C": "a negated ordering rule whose remainder begins with a letter of the prefix word (`no ntp ...`, `undo domain ...`): lstrip eats it",
+ "C07-D": "a rule whose first %param is separated from the words by a tab or a continuation line",
+ "C08-C": "several negated rows with equal order (matched by one rule or by none)",
+ "C08-D": "an ordering rule whose first word merely begins with the negation word (`notify`, `undotted`)",
+ "C09-C": "Huawei NE family with do_commit=False (--dont-commit)",
+ "C09-D": "the same command text under two different blocks whose deploy rules differ (nested rules / a child-less parent rule)",
+ "C10-C": "block_if with a falsy but valid token (area 0, unit 0)",
+ "C10-D": ">= 2 generators whose ACL source texts have different base indentation",
+ "C11-C": "a multi_all port list over several lines, an unchanged line whose ids lie between removed ids, no ADDED id in the gap",
+ "C11-D": "history: a multi-row Cisco list processed first, then the same range text in another changed row (memoised set updated in place)",
+ "C12-C": "the iteration that reads a result also finds the last worker gone (slow consumer / callback)",
+ "C12-D": "a task raising BrokenPipeError/ConnectionResetError on every attempt",
+ "C13-C": "a JSON null stored exactly at a non-glob ACL pointer",
+ "C13-D": "two or more positional operations on one array (reversal, reorder+shorten, two moves)",
+ "C14-C": "cumulus: a community list used only in community.remove(...) and nowhere else",
+ "C14-D": "huawei/arista with the ACL applied and a match with an or_longer=(ge, le) override (derived list name)",
+ "C15-C": "an indirect rule matched in reverse orientation with a handler reading left.match / right.match",
+ "C15-D": "a handler requesting subif = 0 / lag = 0 / svi = 0",
+ "C16-C": "a logic function that rewrites its bucket (huawei.bgp.bfd, *.permanent): the pre returned for display is the consumed one",
+ "C16-D": "a Huawei interface with two multi-line vlan list lines, one removed and one kept (nested unchanged rows pruned before the patch)",
+ "C17-C": "--acl-safe mode, a model with nested defaults, a block present in new but not in the safe output",
+ "C17-D": "history: two Nexus 95xx devices of one model with different role tags handled one after another",
+ "C18-C": "a devdb family listed after one of its descendants (data edit) together with the node built from the descendant's names",
+ "C18-D": "history: the same model loaded with two software versions on either side of the hw.soft branch",
+ "C19-C": "an Entire generator declaring prio = 0 next to one declaring 1..99 for the same path",
+ "C19-D": "file contents differing only in trailing blanks / CRLF",
+ "C20-C": "a config containing rows governed by an ignore rule or no rule, no ACL in _diff_and_patch",
+ "C20-D": "history: an ACL with two overlapping blocks sharing a same-named child rule; a row matching both, then a row matching one",
 }
 out = subprocess.run([sys.executable, os.path.join(HERE, "tools", "seedcheck.py"), "--all-props"], capture_output=True, text=True).stdout
 cur = None; fired = {}
 for l in out.splitlines():
-    m = re.match(r'^(C\d+-[AB]): ', l)
+    m = re.match(r'^(C\d+-[A-D]): ', l)
     if m:
         cur = m.group(1); fired[cur] = []; continue
     m = re.match(r'\s+\[(C\d+) rc=1\] (\S+) VIOLATED (\S+) (\S+)', l)
